@@ -109,10 +109,12 @@ def present(out, idx):
 def excl_trailing_delimiter(s1, e1, a1, b1, p1, s2, e2, p2):
     """recorded finding C16/trailing-delimiter: the later candidate lies wholly inside the
     earlier one's trailing delimiter and has the higher precedence"""
+    if P('noexcl', False):
+        return False
     return e1 >= e2 and b1 <= s2 and s2 < e1 and p2 > p1
 
 
-@lemma('P1.two-candidates', 'C16', timeout=200, twin_timeout=60,
+@lemma('P1.two-candidates', 'C16', timeout=200, twin_timeout=60, canary=[{'noexcl': True}],
        stubs=['SpanStr (source string as interval)', 'stub token classes / match objects', 'fallback token = ("raw", lo, hi)'],
        covers=['span_tokenizer.py:eval_tokens', 'span_tokenizer.py:relation', 'span_tokenizer.py:make_tokens',
                'span_tokenizer.py:ParseToken.make', 'span_tokenizer.py:ParseToken.append_child'],
